@@ -9,7 +9,7 @@ TL == TraceLines[tid].ev
 TInit == /\ tid \in 1..Len(TraceLines) /\ l = 1 /\ Init
 OurActive(e) == SelectSeq(e.active, LAMBDA x : x \in Modes)
 Step(e) ==
-    \/ e.op = "req" /\ e.kind = "start" /\ ReqStart(e.m)
+    \/ e.op = "req" /\ e.kind = "start" /\ ReqStart(e.m, e.alt)
     \/ e.op = "req" /\ e.kind = "stop" /\ ReqStop(e.m)
     \/ e.op = "ev" /\ Ev(e.m, e.name)
     \* loop has run, all queue holds released: no transition may be pending, the active list is exact
@@ -17,7 +17,7 @@ Step(e) ==
     \* nothing the modes registered is left
     \/ /\ e.op = "rest" /\ AtRest /\ UNCHANGED vars
        /\ SeqToSet(OurActive(e)) = ActiveSet /\ Len(OurActive(e)) = Cardinality(ActiveSet) /\ Sorted(OurActive(e))
-       /\ \A m \in ActiveSet : e.prio[m] = Prio[m]
+       /\ \A m \in ActiveSet : e.prio[m] = EffPrio(m)
        /\ (ActiveSet = {} => e.leak = 0)
 TNext == l <= Len(TL) /\ Step(TL[l]) /\ l' = l + 1 /\ UNCHANGED tid
 TSpec == TInit /\ [][TNext]_tvars
